@@ -4,7 +4,7 @@
    draft-4 verdict L0, for every oracle and every numeric implementation whose order is total.
    The excluded shapes are exactly where the recorded finding classes live, plus the keywords not proved yet. *)
 From Coq Require Import List ZArith Bool Lia Btauto.
-From Verif Require Import Base.Sx Base.GoVal Schema.Ast Schema.Build Schema.Pipeline Schema.Draft4 Schema.PipelineFacts Schema.PipelineTerm Schema.AgreementData Schema.JsonEq.
+From Verif Require Import Base.Sx Base.GoVal Schema.Ast Schema.Build Schema.Pipeline Schema.Draft4 Schema.PipelineFacts Schema.PipelineTerm Schema.PipelineQuiet Schema.AgreementData Schema.JsonEq.
 Import ListNotations.
 Open Scope Z_scope.
 
@@ -16,6 +16,17 @@ Variable fin : f64 -> Prop.
 (* null in the data is admitted only together with schemas free of allOf / anyOf / not at every level (see [local_clean]) *)
 Variable allow_null : bool.
 Notation jd := (AgreementData.jd fin allow_null).
+
+(* JSON data of the class has no member named "headers": no IMPORTANT! error is produced on it (Schema/PipelineQuiet.v) *)
+Lemma jd_nohdr : forall v, jd v -> nohdr v.
+Proof.
+  fix IH 1. intros v. destruct v as [| | | | | |id l| |id m]; intros H; try exact I; try (exfalso; exact H).
+  - apply nohdr_arr. apply jd_arr in H. revert l H. fix IHl 1. intros l H. destruct l as [|x t]; [constructor|].
+    inversion H; subst. constructor; [apply IH; assumption | apply IHl; assumption].
+  - apply nohdr_obj. apply jd_obj in H. destruct H as [H _]. revert m H. fix IHm 1. intros m H. destruct m as [|kv t]; [constructor|].
+    inversion H as [|y ys [Hk Hv] Ht]; subst. destruct Hk as [_ [_ Hk]].
+    constructor; [split; [exact Hk | apply IH; exact Hv] | apply IHm; exact Ht].
+Qed.
 
 Section Agree.
 Variable OR : oracles.
@@ -187,6 +198,8 @@ Qed.
 
 Variable rec_sp : schema -> path -> path -> goval -> outcome res.
 Variable recd : schema -> goval -> option bool.
+(* no IMPORTANT! error comes back from a sub-validator on this data (discharged by PipelineQuiet.no_important_error) *)
+Hypothesis Hquiet : forall c p q d, jd d -> oquiet (rec_sp c p q d).
 
 (* the two recursions agree on a sub-schema: L1 returns a result, L0 a verdict, and they are the same verdict *)
 Definition goodc (c : schema) : Prop :=
@@ -529,13 +542,42 @@ Proof.
     + rewrite G2, Hvx. cbn [length]. rewrite Nat2Z.inj_succ. lia.
 Qed.
 
-Definition comp_clean (s : schema) : Prop := s_one_of s = [] /\ NoDup (map fst (s_deps s)).
+(* oneOf: the number of alternatives the code counts as validated is the number draft 4 counts; what is kept aside of the
+   failed alternatives (keepRelevantErrors) is empty on this data *)
+Lemma one_of_agree p d : jd d -> forall vs, Forall goodc vs -> forall keep first best validated,
+  r_valid keep = true -> (forall f, first = Some f -> r_valid f = true) ->
+  exists first' best' keep' c,
+    one_of rec_sp vs p d keep first best validated = Ok (first', best', validated + c, keep') /\
+    count_true (map (fun c => recd c d) vs) = Some c /\ 0 <= c /\
+    r_valid keep' = true /\ (forall f, first' = Some f -> r_valid f = true).
+Proof.
+  intros Hd vs Hvs. induction Hvs as [|s1 t Hg Ht IH]; intros keep first best validated Hk Hf.
+  - exists first, best, keep, 0. cbn [one_of map count_true]. rewrite Z.add_0_r. repeat split; auto. lia.
+  - cbn [one_of map count_true]. unfold rec. destruct (Hg p p d Hd) as [x [Hx Hdx]]. rewrite Hx, Hdx. cbn [bind].
+    pose proof (Hquiet s1 p p d Hd) as Hq. rewrite Hx in Hq. unfold oquiet in Hq.
+    assert (Hk' : r_valid (merge keep (Some (keep_relevant x))) = true) by (rewrite r_valid_merge, Hk, (res_quiet_keep x Hq); reflexivity).
+    destruct (r_valid x) eqn:Ev.
+    + destruct (IH new_res (match first with None => Some x | Some _ => first end) best (validated + 1)) as [f' [b' [k' [c [H1 [H2 [H3 [H4 H5]]]]]]]].
+      * reflexivity.
+      * intros f E. destruct first as [f0|]; [apply Hf; exact E | inversion E; subst; exact Ev].
+      * exists f', b', k', (c + 1). rewrite H2. replace (validated + (c + 1)) with (validated + 1 + c) by lia.
+        split; [exact H1|]. split; [reflexivity|]. split; [lia|]. split; assumption.
+    + assert (Hgen : forall best0, exists first' best' keep' c,
+                one_of rec_sp t p d (merge keep (Some (keep_relevant x))) first best0 validated = Ok (first', best', validated + c, keep') /\
+                match count_true (map (fun c0 => recd c0 d) t) with Some c0 => Some c0 | None => None end = Some c /\ 0 <= c /\
+                r_valid keep' = true /\ (forall f, first' = Some f -> r_valid f = true)).
+      { intros best0. destruct (IH (merge keep (Some (keep_relevant x))) first best0 validated Hk' Hf) as [f' [b' [k' [c [H1 [H2 [H3 [H4 H5]]]]]]]].
+        exists f', b', k', c. rewrite H2. repeat split; assumption. }
+      match goal with |- exists _ _ _ _, (if ?b then _ else _) = _ /\ _ => destruct b end; apply Hgen.
+Qed.
+
+Definition comp_clean (s : schema) : Prop := NoDup (map fst (s_deps s)).
 
 Lemma props_agree p s d : kids goodc s -> comp_clean s -> jd d ->
   exists r bc, props_validate rec_sp p s d = Ok r /\ composition_ok recd s d = Some bc /\ r_valid r = bc && deps_verdict s d.
 Proof.
-  intros K [Hone Hdeps] Hd. pose proof K as [_ [_ [_ [_ [_ [_ [Kall [Kany [_ [Knot _]]]]]]]]]].
-  unfold props_validate, composition_ok. rewrite Hone. cbv zeta.
+  intros K Hdeps Hd. unfold comp_clean in Hdeps. pose proof K as [_ [_ [_ [_ [_ [_ [Kall [Kany [Kone [Knot _]]]]]]]]]].
+  unfold props_validate, composition_ok. cbv zeta.
   (* anyOf *)
   assert (Hany : exists a bany, (match s_any_of s with
                                  | [] => Ok (new_res, None)
@@ -550,19 +592,43 @@ Proof.
     destruct (any_of_agree p d Hd (v0 :: vt) Kany new_res new_res None) as [mk [c [H1 [H2 H3]]]].
     rewrite H1, H2. cbn [bind]. exists (fst mk, Some (snd mk)), (0 <? c). cbn [fst snd]. rewrite H3. auto. }
   destruct Hany as [[main1 keep_any] [bany [Ha [Hda Hva]]]]. rewrite Ha, Hda. cbn [bind fst snd] in *.
+  (* oneOf *)
+  assert (Hone : exists b bone, (match s_one_of s with
+                                 | [] => Ok (main1, None)
+                                 | vs =>
+                                     do x <- one_of rec_sp vs p d new_res None None 0;
+                                     let '(first, best, validated, keep) := x in
+                                     Ok (if Z.eqb validated 0 then merge (r_add main1 [mkMsg C_ONE_OF_NONE p []]) best
+                                         else if Z.eqb validated 1 then merge main1 first
+                                         else merge (r_add main1 [mkMsg C_ONE_OF_MANY p [validated]]) best, Some keep)
+                                 end) = Ok b /\
+                 (match s_one_of s with
+                  | [] => Some true
+                  | l => match count_true (map (fun c => recd c d) l) with Some c => Some (Z.eqb c 1) | None => None end
+                  end) = Some bone /\
+                 r_valid (fst b) && (match snd b with Some k => r_valid k | None => true end) = r_valid main1 && bone).
+  { destruct (s_one_of s) as [|v0 vt] eqn:E; [exists (main1, None), true; cbn; rewrite !andb_true_r; auto|].
+    destruct (one_of_agree p d Hd (v0 :: vt) Kone new_res None None 0 eq_refl) as [f' [b' [k' [c [H1 [H2 [H3 [H4 H5]]]]]]]]; [intros f E0; discriminate|].
+    rewrite H1, H2. cbn [bind]. rewrite Z.add_0_l. eexists. exists (Z.eqb c 1). split; [reflexivity|]. split; [reflexivity|]. cbn [fst snd]. rewrite H4, andb_true_r.
+    destruct (Z.eqb_spec c 0) as [e0|n0].
+    - subst c. cbn [Z.eqb]. rewrite r_valid_merge, r_valid_add, !andb_false_r. reflexivity.
+    - destruct (Z.eqb_spec c 1) as [e1|n1].
+      + rewrite r_valid_merge. destruct f' as [f|]; [rewrite (H5 f eq_refl)|]; rewrite !andb_true_r; reflexivity.
+      + rewrite r_valid_merge, r_valid_add, !andb_false_r. reflexivity. }
+  destruct Hone as [[main2 keep_one] [bone [Ho [Hdo Hvo]]]]. cbv zeta in Ho. rewrite Ho, Hdo. cbn [bind fst snd] in *.
   (* allOf *)
   assert (Hall : exists cc ball, (match s_all_of s with
-                                  | [] => Ok (main1, None)
-                                  | vs => do x <- all_of rec_sp vs p d main1 new_res 0;
+                                  | [] => Ok (main2, None)
+                                  | vs => do x <- all_of rec_sp vs p d main2 new_res 0;
                                           let '(main', keep, validated) := x in
                                           Ok (if Z.eqb validated 0 then r_add main' [mkMsg C_ALL_OF_NONE p []]
                                               else if Z.eqb validated (Z.of_nat (length vs)) then main'
                                               else r_add main' [mkMsg C_ALL_OF_SOME p []], Some keep)
                                   end) = Ok cc /\
                  all_opt (map (fun c => recd c d) (s_all_of s)) = Some ball /\
-                 r_valid (fst cc) && (match snd cc with Some k => r_valid k | None => true end) = r_valid main1 && ball).
-  { destruct (s_all_of s) as [|v0 vt] eqn:E; [exists (main1, None), true; cbn; rewrite !andb_true_r; auto|].
-    destruct (all_of_agree p d Hd (v0 :: vt) Kall main1 new_res 0) as [main' [keep' [validated' [b [H1 [H2 [H3 H4]]]]]]].
+                 r_valid (fst cc) && (match snd cc with Some k => r_valid k | None => true end) = r_valid main2 && ball).
+  { destruct (s_all_of s) as [|v0 vt] eqn:E; [exists (main2, None), true; cbn; rewrite !andb_true_r; auto|].
+    destruct (all_of_agree p d Hd (v0 :: vt) Kall main2 new_res 0) as [main' [keep' [validated' [b [H1 [H2 [H3 H4]]]]]]].
     cbv zeta. rewrite H1, H2. cbn [bind]. eexists. exists b. split; [reflexivity|]. split; [reflexivity|]. cbn [fst snd].
     destruct b.
     - destruct (H4 eq_refl) as [G1 G2]. rewrite G2, G1. cbn [length]. rewrite Z.add_0_l, Nat2Z.inj_succ.
@@ -600,10 +666,16 @@ Proof.
       apply (swap_deps (dep_verdict (VObj id m) m) (s_deps s) m Hdeps Hndm). }
   destruct Hdep as [main5 [Hm5 Hv5]]. rewrite Hm5. cbn [bind].
   eexists. eexists. split; [reflexivity|]. split; [reflexivity|].
-  rewrite !r_valid_merge, r_valid_inc, Hv5, Hvn. cbn [andb].
-  rewrite <- Hva.
-  transitivity ((r_valid main3 && match keep_all with Some k => r_valid k | None => true end) && bnot && match keep_any with Some k => r_valid k | None => true end && deps_verdict s d);
-    [btauto|]. rewrite Hvc. btauto.
+  rewrite !r_valid_merge, r_valid_inc, Hv5, Hvn.
+  set (KALL := match keep_all with Some k => r_valid k | None => true end) in *.
+  set (KONE := match keep_one with Some k => r_valid k | None => true end) in *.
+  set (KANY := match keep_any with Some k => r_valid k | None => true end) in *.
+  transitivity ((r_valid main3 && KALL) && KONE && KANY && bnot && deps_verdict s d); [btauto|].
+  rewrite Hvc.
+  transitivity ((r_valid main2 && KONE) && KANY && ball && bnot && deps_verdict s d); [btauto|].
+  rewrite Hvo.
+  transitivity ((r_valid main1 && KANY) && bone && ball && bnot && deps_verdict s d); [btauto|].
+  rewrite Hva. btauto.
 Qed.
 
 (* ------------------------------------------------------------------ objects *)
@@ -800,7 +872,7 @@ Qed.
 
 (* ------------------------------------------------------------------ one schema level *)
 
-Definition nullsafe (s : schema) : Prop := s_all_of s = [] /\ s_any_of s = [] /\ s_not s = None.
+Definition nullsafe (s : schema) : Prop := s_all_of s = [] /\ s_any_of s = [] /\ s_one_of s = [] /\ s_not s = None.
 
 Definition local_clean (s : schema) : Prop :=
   (allow_null = true -> nullsafe s) /\
@@ -833,7 +905,7 @@ Proof.
       rewrite Ha, r_valid_inc, r_valid_merge, Hr0. reflexivity. }
   destruct d as [|b|x|d32 f| | |id l| |id m]; try (exfalso; exact Hd).
   - (* null: only the type and the enumeration are looked at; the schema has no composition keyword *)
-    cbn [jd] in Hd. destruct (Hns Hd) as [Hao [Hany Hnot]]. destruct Hcomp as [Hone Hdeps].
+    cbn [jd] in Hd. destruct (Hns Hd) as [Hao [Hany [Hone Hnot]]].
     assert (Hx2v : bc = true).
     { unfold composition_ok in Hc. rewrite Hao, Hany, Hnot, Hone in Hc. cbn in Hc. inversion Hc. reflexivity. }
     assert (Htn : r_valid (type_validate N p (s_types s) false (s_format s) VNil) = type_ok N s VNil).
@@ -921,7 +993,8 @@ Proof.
   pose proof (clean_bounded (S n) s Hc) as Hb. destruct Hc as [Hl K]. pose proof Hl as [_ [Href _]].
   cbn [sv_validate d4]. rewrite (eager_bounded defs (S n) f s Hb); [|lia]. cbn [bind].
   rewrite (resolve_ref_free defs f s Href). cbn [bind]. rewrite Href.
-  apply (body_agree OR N opt Hopt_items Hopt_array Hord Heq_sym (sv_validate OR N opt defs f) (d4 OR N defs f) s p q d Hl); [|exact Hd].
+  apply (body_agree OR N opt Hopt_items Hopt_array Hord Heq_sym (sv_validate OR N opt defs f) (d4 OR N defs f)
+           (fun c p' q' d' Hd' => no_important_error OR N opt defs f c p' q' d' (jd_nohdr d' Hd')) s p q d Hl); [|exact Hd].
   eapply kids_impl; [|exact K]. intros c Hcc p' q' d' Hd'. apply IH; [exact Hcc | lia | exact Hd'].
 Qed.
 
